@@ -67,6 +67,30 @@ fn probes(_m: &Model) -> Vec<Vec<Bytes>> {
     p
 }
 
+/// A consumer reading its own pending entries again (explicit id), with COUNT and from ids in the middle: evaluated on
+/// throw-away replays (they bump delivery counts) at every state where two consumers of g hold pending entries - COUNT
+/// has to cut the consumer's own list, not the group's (a seeded change applied it before the filter by owner).
+fn reread_probes(m: &Model) -> Vec<Vec<Bytes>> {
+    let owners: std::collections::BTreeSet<String> = match m.dbs[0].keys.get(&b("s")) {
+        Some(e) => match &e.val {
+            crate::model::Val::Stream(st) => st.groups.get("g").map(|g| g.pel.values().map(|v| v.0.clone()).collect()).unwrap_or_default(),
+            _ => Default::default(),
+        },
+        None => Default::default(),
+    };
+    if owners.len() < 2 {
+        return vec![];
+    }
+    let mut p = Vec::new();
+    for c in ["c1", "c2"] {
+        p.push(sv(&["XREADGROUP", "GROUP", "g", c, "COUNT", "1", "STREAMS", "s", "0-0"]));
+        p.push(sv(&["XREADGROUP", "GROUP", "g", c, "COUNT", "2", "STREAMS", "s", "0"]));
+        p.push(sv(&["XREADGROUP", "GROUP", "g", c, "COUNT", "1", "STREAMS", "s", "1-1"]));
+        p.push(sv(&["XREADGROUP", "GROUP", "g", c, "STREAMS", "s", "2-1"]));
+    }
+    p
+}
+
 fn invariants(srv: &Srv, _m: &Model) -> Vec<String> {
     let mut v = Vec::new();
     if let Ok(ferrous::storage::engine::GetResult::Found(ferrous::storage::value::Value::Stream(st))) = srv.h.storage.get(0, b"s") {
@@ -90,7 +114,7 @@ pub fn make_world(spec: &str) -> Option<Box<dyn World>> {
     };
     Some(Box::new(DataWorld::new(DataSpec {
         prop: "C16".into(), acts: acts(full), probes: Box::new(probes), uses_time: true, isolated_probes: false,
-        invariants: Some(Box::new(invariants)), cross: None, db: 0, destructive_probes: None, on_reset: None,
+        invariants: Some(Box::new(invariants)), cross: None, db: 0, destructive_probes: Some(Box::new(reread_probes)), on_reset: None,
     })))
 }
 
